@@ -5,14 +5,14 @@ CONSTANTS
   MaxHeader = 255
   Deviations = {}
   Bug = ""
-  Mode = "lk"
+  Mode = "dims"
   NC = 2
   MaxBody = 3
   MaxPrefix = 2
-  SkipBytes = {0, 128}
-  Variants = {0}
-  DimVals = {0, 3}
-  MaxW = 2
+  SkipBytes = {0, 1, 128}
+  Variants = {0, 2}
+  DimVals = {0, 3, 5}
+  MaxW = 3
   MaxH = 1
   DomT = 1
   PadK = 0
